@@ -348,7 +348,7 @@ PROPS["C12"] = dict(
     quick=[("asan", 16, 40), ("plain", 8, 40)],
     thorough=[("asan", 16, 1500), ("plain", 16, 4000), ("memcheck", 8, 3, {"budget": 900})],
     floors={"quick": {"empty_after_resize_0": 20, "failures_handled_inside_an_enclosing_try": 100, "iterations_with_a_refused_get_in_the_body": 20, "empty_after_draining": 20, "distinct_faults_in_table": 300, "sequence_objects_faulted": 100, "map_objects_faulted": 100,
-                      "string_objects_faulted": 50, "range_objects_faulted": 50, "scalar_objects_faulted": 1, "fixed_storage_tuples_faulted": 100, "stack_strings_faulted": 100, "absorbable_wrong_types_offered_to_an_empty_map": 50}},
+                      "string_objects_faulted": 50, "range_objects_faulted": 50, "scalar_objects_faulted": 1, "fixed_storage_tuples_faulted": 100, "stack_strings_faulted": 100, "absorbable_wrong_types_offered_to_an_empty_map": 50, "plain_struct_containers_faulted": 100}},
     exhaustive=False,
     rule="evaluation = one fault (object kind, operation, invalid argument, size) executed with all oracles; the "
          "fixed table is run completely by shard 0, generated cases repeat it at random sizes/contents; distinct = "
@@ -396,7 +396,7 @@ PROPS["C20"] = dict(
     floors={"quick": {"closed_file_probes": 200, "reads_past_the_end": 50, "zero_byte_writes": 20,
                       "writes_larger_than_a_stdio_buffer": 20, "seeks_from_start": 50, "seeks_from_current": 50,
                       "seeks_from_end": 50, "reopens_while_open": 50, "dels_of_open_files": 20, "with_blocks": 1,
-                      "text_roundtrips": 1, "record_wise_reads": 6, "stack_file_lifecycles": 3, "with_blocks_on_files_that_are_not_open": 4, "append_opens": 50, "formatted_writes": 50, "formatted_writes_with_an_empty_text_field": 200, "writes_refused_by_the_mode": 50, "reads_refused_by_the_mode": 50, "operations_checked_with_the_error_indicator_set": 100, "formatted_writes_with_a_literal_percent": 200, "reopens_through_the_constructor": 20}},
+                      "text_roundtrips": 1, "record_wise_reads": 6, "stack_file_lifecycles": 3, "with_blocks_on_files_that_are_not_open": 4, "append_opens": 50, "formatted_writes": 50, "formatted_writes_with_an_empty_text_field": 200, "writes_refused_by_the_mode": 50, "reads_refused_by_the_mode": 50, "operations_checked_with_the_error_indicator_set": 100, "formatted_writes_with_a_literal_percent": 200, "reopens_through_the_constructor": 20, "failed_reopens_of_an_open_file": 20}},
     rule="case = one File object driven through 20-80 (thorough: up to 140) random stream operations; distinct = hash "
          "of the operation list; non-trivial = at least 20 operations",
     assumptions=["one File object per case, one file on disk per shard", "offsets stay within the file"],
@@ -419,7 +419,7 @@ PROPS["C19"] = dict(
     quick=[("asan", 16, 30), ("plain", 8, 30)],
     thorough=[("asan", 16, 1500), ("plain", 16, 4000), ("memcheck", 8, 3, {"budget": 900})],
     floors={"quick": {"containers_obtained_from_empty_sources": 200, "iterator_result_walks": 1000, "sized_map_checks": 2000, "sized_sequence_checks": 1000, "sized_maps_value_larger_than_key": 100, "sized_maps_key_larger_than_value": 100, "objects_observed": 5000, "refusals_checked": 2000, "neighbour_checks": 100,
-                      "heap_objects_released_once": 50, "empty_registry_thread_runs": 20, "stack_objects_of_sized_types_written_in_full": 1000, "rings_of_mutual_owners_released_once": 20, "runtime_types_constructed_again_in_place": 50}},
+                      "heap_objects_released_once": 50, "empty_registry_thread_runs": 20, "stack_objects_of_sized_types_written_in_full": 1000, "rings_of_mutual_owners_released_once": 20, "runtime_types_constructed_again_in_place": 50, "shrinking_resizes_of_string_sequences": 200}},
     rule="evaluation = one observation or one refused operation; the enumeration is run completely at sizes "
          "1,2,3,7,64 by shard 0 and at random sizes by the generated cases; distinct = container size; non-trivial = "
          "every case",
